@@ -1,11 +1,11 @@
 #!/bin/bash
-# Like try_seeded.sh but in a scratch copy (/tmp/mh: worktree + harness copy), so /repo is not touched and registered
+# Like try_seeded.sh but in a scratch copy (${MH:-/tmp/mh}: worktree + harness copy), so /repo is not touched and registered
 # checks can run at the same time.  usage: try_seeded_alt.sh <seeded dir> <property> [quick|thorough]   (not for C19 / C01-thorough)
 d=$1; p=$2; tier=${3:-quick}
-cd /tmp/mh/repo && git checkout -q -- . && git apply /verif/seeded/$d/patch.diff || { echo "patch does not apply"; exit 3; }
-rsync -a --exclude target --exclude Cargo.toml /verif/harness/ /tmp/mh/harness/
-cd /tmp/mh/harness && cargo build --release --offline >/tmp/mh/build.log 2>&1 || { tail -5 /tmp/mh/build.log; exit 3; }
+cd ${MH:-/tmp/mh}/repo && git checkout -q -- . && git apply /verif/seeded/$d/patch.diff || { echo "patch does not apply"; exit 3; }
+rsync -a --exclude target --exclude Cargo.toml /verif/harness/ ${MH:-/tmp/mh}/harness/
+cd ${MH:-/tmp/mh}/harness && cargo build --release --offline >${MH:-/tmp/mh}/build.log 2>&1 || { tail -5 ${MH:-/tmp/mh}/build.log; exit 3; }
 start=$(date +%s)
-VERIF_REPO=/tmp/mh/repo VERIF_OUT_DIR=/tmp/mh/out ./target/release/verif $p --tier $tier > /tmp/mh/try_$d.log 2>&1; rc=$?
-echo "$d $p $tier exit=$rc wall=$(( $(date +%s) - start ))s :: $(grep -E '^  failure' /tmp/mh/try_$d.log | head -1 | cut -c1-260)"
-cd /tmp/mh/repo && git checkout -q -- .
+VERIF_REPO=${MH:-/tmp/mh}/repo VERIF_OUT_DIR=${MH:-/tmp/mh}/out ./target/release/verif $p --tier $tier > ${MH:-/tmp/mh}/try_$d.log 2>&1; rc=$?
+echo "$d $p $tier exit=$rc wall=$(( $(date +%s) - start ))s :: $(grep -E '^  failure' ${MH:-/tmp/mh}/try_$d.log | head -1 | cut -c1-260)"
+cd ${MH:-/tmp/mh}/repo && git checkout -q -- .
